@@ -388,6 +388,39 @@ func runC02(c *report.Ctx) {
 		}
 	}
 
+	// ---- selector heap ----------------------------------------------------------------------------------
+	c.Rule("selector-heap", "when the top-K buffer fills, the heap is built by sifting down every inner node including the root (index 0): otherwise the minimum is not at the root and eligible coins larger than it are rejected", 1)
+	submitF := fn(c, pkgWallet, "topKSelector", "submit")
+	adjust := fn(c, pkgWallet, "topKSelector", "adjust")
+	if submitF != nil && adjust != nil {
+		found := false
+		for _, s := range calls(submitF, adjust) {
+			if loopHeaderOf(s.Block()) == nil {
+				continue
+			}
+			found = true
+			idx := an.CallOf(s).Args[1]
+			ok := an.AnyAtom(p.GuardsOf(s), func(a an.Atom) bool {
+				if a.X != idx {
+					return false
+				}
+				k, isK := a.Y.(*ssa.Const)
+				if !isK || k.Value == nil {
+					return false
+				}
+				return (a.Op == token.GEQ && k.Value.ExactString() == "0") || (a.Op == token.GTR && k.Value.ExactString() == "-1")
+			})
+			if ok {
+				c.OK(sk(submitF)+":heapify-includes-root", "sift-down loop runs while i >= 0", posOf(c, s))
+			} else {
+				c.Fail(sk(submitF)+":heapify-includes-root", "the heap-building loop stops before index 0: the root is never sifted down, so base[0] is not the minimum and the selector does not keep the K largest eligible coins (creation fails with insufficient funds although funds suffice)", posOf(c, s), an.AtomTexts(p.GuardsOf(s))...)
+			}
+		}
+		if !found {
+			c.Fail(sk(submitF)+":heapify-includes-root", "no heap-building loop found in topKSelector.submit (anchor lost)", p.Pos(submitF.Pos()))
+		}
+	}
+
 	// ---- API fee ceiling ------------------------------------------------------------------------
 	ruleFeeCeiling(c)
 }
